@@ -27,7 +27,7 @@ CHECKS = {
             'Exhaustive over about 470 (year, amount, status) triples of hv/statutory.py (standard deductions, capital-gain breakpoints, AMT exemption / phase-out / 28 % point, child-credit amounts '
             'and phase-outs, Additional Medicare thresholds, HSA limits, SALT cap, QBI / EIC / saver\'s-credit limits, Form 1116 ceiling, Schedule B threshold, 2021 recovery-rebate amounts, NC rate, '
             'NC standard and child deductions at every AGI band edge): each is read from a line that displays it, from the threshold table, or decided by two solves placed one dollar apart around the '
-            'official amount. Unobserved triples (NC for qualifying surviving spouse) are listed.',
+            'official amount. All triples must be observed (floor 98 %).',
             'Trusts hv/statutory.py; the code may compare a conservative quantity for QBI (asserted only where the law fixes the outcome).',
             'DESIGN.md section 4, C08'),
     'C09': ('exploration',
@@ -35,7 +35,7 @@ CHECKS = {
             'spec/gates.py curates ~70 gate inputs per year from the input descriptions. On every traced solve, a consultation of a gate with the affirmative answer '
             '(a READ_INPUT by a line, or a read of an input form\'s echo line by another form) must not coexist with a solved verdict. Each gate is flipped in up to 3 (quick) / 10 '
             '(thorough) base scenarios that solve and read it; limit-type gates (foreign tax above the Form 1116 ceiling, more than 14 payers with Schedule B required, HSA contribution '
-            'above the limit) are directed cases; thorough adds random multi-gate flips. Evidence lists gates never read and gates flipped but never reached.',
+            'above the limit alone, together with the employer\'s contribution, and with family coverage) are directed cases; thorough adds random multi-gate flips. A fixed pool of witness returns (independent of VERIF_SEED) is compared with the committed list spec/gate_witness.json of (year, gate) pairs it consults: a listed gate that is no longer consulted is reported (a dropped gate). Evidence lists gates never read and gates flipped but never reached.',
             'The curated list is the trusted base; a gate not read imposes nothing; aborts count as not solved.',
             'DESIGN.md section 4, C09'),
     'C10': ('exploration',
@@ -48,13 +48,13 @@ CHECKS = {
     'C15': ('exploration',
             'invariant monitor on the typed solution of every solved explored return (balance equations, curated non-negative lines, ratio range)',
             'For every solved persona return: federal overpayment minus owed equals payments minus tax, not both positive, refund plus applied equals overpayment; the NC analogue on both '
-            'branches; every line on the curated non-negative list is >= 0; Form 8606 line 10 in [0,1]. Floors require both refund and owed branches in every year.',
+            'branches; every line on the curated non-negative list is >= 0; Form 8606 line 10 in [0,1]. Floors require both refund and owed branches in every year. Purpose-built returns (net capital gain above taxable income with REIT dividends, N.C. overpayments with designations around them, Form 8606 parts, high earners ...) run next to the random personas.',
             'Personas supply non-negative amounts; the non-negative list is curated in hv/monitors/c15.py.',
             'DESIGN.md section 4, C15'),
     'C16': ('exploration',
             'metamorphic monitor over pairs of real solves (copy renumbering, wage / deduction / withholding increments)',
             'For solved bases: every permutation (quick: two) of the instance numbers of W-2/1099/1098 copies must change nothing but the renamed sections and the order of Schedule B listing rows; '
-            'wage increments (1, 50, 1000, 25000) must not lower line 24; increments of each deductible input must not raise it; increments of withholding must move line 34 - line 37 by exactly that amount. '
+            'wage increments (1, 50, 1000, 25000) must not lower line 24; increments of each deductible input must not raise it; increments of withholding must move line 34 - line 37 by exactly that amount, and increments of N.C. tax withheld (W-2 box 17, the state boxes of the 1099s) the N.C. overpayment minus tax due; the N.C. income tax is checked for the same monotonicity and wages are stepped across every edge of the N.C. child-deduction bands. '
             'Only pairs in which both returns solve are compared.',
             'Monotonicity only for the relations the property names; 1-cent tolerance.',
             'DESIGN.md section 4, C16'),
@@ -72,7 +72,7 @@ CHECKS = {
             'For every solved explored return (all years) the solution is written exactly as the CLI writes it and read back by `habutax fill-pdfs` (stand-in pdftk); '
             'every value loaded must equal the value solved (numbers/booleans exactly, enumerations by member, text up to surrounding whitespace). A closed list of value '
             'classes for every line type and decimal-place setting goes through the same path. The real CLI is run per year to check the file carries its tax year and '
-            'only that year\'s templates are used.',
+            'only that year\'s templates are used; the --solution path is one used before for a larger return (the file must be exactly the new solution).',
             'Known findings: ConfigParser interpolation of % and comment-like continuation lines (listed in known_findings.json).',
             'DESIGN.md section 4, C14'),
     'C17': ('exploration',
@@ -102,7 +102,7 @@ CHECKS = {
             'For each explored interactive session (persona x initial file) and EVERY prompt index k: Ctrl-C at the prompt, end of input at the prompt, invalid answer then Ctrl-C; '
             'plus a line definition raising at sampled evaluation indices and an unsupported form being reached. After each faulted `solve --prompt-missing --writeback-input` the file '
             'must parse, hold every value it held before and every answer given before the fault, and the re-run must not ask for any of them again. A sample of fault points is repeated through the real child process '
-            'on a pseudo-terminal (real SIGINT / end of input). A prompt loop that keeps calling input() after input ended is reported by a logical bound.',
+            'on a pseudo-terminal (real SIGINT / end of input). A prompt loop that keeps calling input() after input ended is reported by a logical bound. Every other session starts from an annotated file (comment lines and a notes section), so the rewritten file is shorter than what was on disk.',
             'In-process CLI with builtins.input replaced; the answer being typed at the fault point is not required to persist.',
             'DESIGN.md section 4, C20'),
     'C01': ('exploration',
@@ -118,7 +118,7 @@ CHECKS = {
             'runtime re-evaluation monitor: every stored line re-run through its own definition on the final stores, under permuted schedules',
             'After each traced solve (natural order and seeded permutations of the attempt order) every stored line is re-evaluated with the real '
             'Field.value on accessors over a fresh InputStore of the final configuration and the final value store, both on the stored typed values and on the values as the returned solution carries them '
-            '(to_string/from_string), and must reproduce them exactly; online, every read must return the latest store and no key may change value; a solve - change inputs - solve again history runs on the same store object.',
+            '(to_string/from_string), and must reproduce them exactly; online, every read must return the latest store and no key may change value; histories: solve - change inputs - solve again on the same store object, the same store handed to a solver of another tax year, and every form the return pulls in by reference requested up front (all their lines outstanding from the start).',
             'Assumes line definitions are pure; schedule permutation is by replacing habutax.solver.sort_keys.',
             'DESIGN.md section 4, C03'),
     'C04': ('exploration',
@@ -131,7 +131,7 @@ CHECKS = {
     'C05': ('exploration',
             'schedule perturbation + metamorphic comparison of canonical outcomes across variants',
             'Each case is solved under the natural order, K seeded permutations of the attempt order, permuted request order, permuted file layout, '
-            'all-in-file / all-at-prompt / split / file-on-disk variants, line renamings and three PYTHONHASHSEED values (separate processes); verdict, typed values, solution keys and diagnostic sets must coincide. '
+            'all-in-file / all-at-prompt / split / file-on-disk variants, line renamings and three PYTHONHASHSEED values (separate processes); verdict, typed values, solution keys and diagnostic sets must coincide. At the command line the same file and the same set of --form options are given in every order (verdict, printed diagnostics, written solution); the same fixed returns are solved in three different sequences in three processes (what was solved before in the same process is not an input). '
             'Evidence counts distinct attempt sequences actually produced.',
             'With a refusing prompt only solved/not-solved is compared (the questions asked legitimately depend on order).',
             'DESIGN.md section 4, C05'),
@@ -148,7 +148,7 @@ CHECKS = {
             'postcondition monitor on stored/read line values against a ten-line convention model; exhaustive awkward-value matrix',
             'Generated lines return every awkward Python value (bool for int, int for money, subclasses, None, blank strings, -0.0, 1e22, ...) for every '
             'line type and places in {0,2,5} (exhaustive matrix): the stored value must equal the convention model, or the solve must abort with a '
-            'TypeError naming the line; every STORE_LINE/READ_LINE of all other explored solves is checked for exact type and rounding.',
+            'TypeError naming the line; every STORE_LINE/READ_LINE of all other explored solves is checked for exact type and rounding. Every line of every shipped form is also demanded by name next to Form 1040 from filers with no statements beyond a W-2 and from persona filers: a shipped definition whose answer the framework rejects on a valid return is reported (the property quantifies over the shipped definitions).',
             'Trusts hv/progen.convention as the specified convention.',
             'DESIGN.md section 4, C12'),
     'C13': ('exploration',
@@ -156,7 +156,7 @@ CHECKS = {
             'Each PROMPT must be preceded by a READ_INPUT(missing) of that input by the quoted lines, for an input not supplied and not asked before; '
             'without refusal the asked set must equal the reference set of read-and-absent inputs; run 2 on the written-back inputs must ask nothing '
             'and give the identical solution; run 3 with never-read inputs deleted must give the identical outcome. The same history runs through the real CLI (write-back file, --solution), where the text of every '
-            'prompt is also compared with the waiting lines the solver passed to the prompt function.',
+            'prompt is also compared with the waiting lines the solver passed to the prompt function; half of these histories start from a nearly complete file (every section present, a few values missing) and assert that the answers are in the file after run 1.',
             'Answers stay inside ConfigParser\'s safe alphabet (INI artefacts are C14\'s).',
             'DESIGN.md section 4, C13'),
     'C07': ('exploration',
